@@ -173,12 +173,10 @@ def gen_case(rng, solver, big=False):
     if solver == "de":
         spec.update(bounds=gen_bounds(rng, d), population_size=rng.choice([1, 4, 4, 5, 6, 8]),
                     max_iter=rng.choice([0, 1, 2, 3] + list(range(3, mi_hi + 1))),
-                    strategy=rng.choice(["rand/1", "best/1", "rand/2", "best/2", "Rand/1"]),
+                    strategy=rng.choice(["rand/1", "best/1", "rand/2", "best/2", "Rand/1", "rand/3"]),
                     mutation=rng.choice([0.5, 0.8, 1.2]), crossover=rng.choice([0.1, 0.7, 1.0]),
                     tol=rng.choice([1e-8, 1e-8, 1e-8, 1e-8, 0.05, 0.3, 1.0, 20.0]),
                     init=(None if rng.random() < 0.6 else gen_points(rng, d, rng.choice([1, 2, 4, 9]))))
-        if spec["strategy"].endswith("/2") and spec["population_size"] < 6:
-            spec["population_size"] = rng.choice([6, 7, 8])     # smaller: IndexError in the fallback (reported finding)
         spec["cb"], spec["interval"] = gen_cb(rng, spec["max_iter"])
     elif solver == "pso":
         spec.update(bounds=gen_bounds(rng, d), n_particles=rng.choice([0] + [1, 2, 3, 3, 4, 5, 5, 8] * 4),
